@@ -127,3 +127,86 @@ tmp_init = REG.add(Contract(
     loop_ghost={1: [], 2: [], 3: [], 4: ["saver_wired"], 5: ["saver_wired"], 6: [], 7: ["mm_last", "mm_owner"]},
 ))
 tmp_init.opaque_sub = True
+
+
+# --------------------------------------------------------------------------------------
+# ThreadedMailboxProcessor.iter / SingleThreadProcessor.iter: a failure kills everything and reaches the caller (C06)
+# --------------------------------------------------------------------------------------
+from pyvc.engine import Exc  # noqa: E402
+
+ARGS0 = lambda t: GETITEM(z3.Function("attr_args", V, V)(t), z3.Function("int2v", z3.IntSort(), V)(z3.IntVal(0)))
+
+
+def _kill_hook(eng, args, kw, st, fr, k, node):
+    g = dict(st.ghost)
+    g["killed_last"] = eng.to_v(st.env["m"])
+    g["kill_reason_ok"] = z3.BoolVal("reason" in kw and kw["reason"] is st.env.get("reason"))
+    g["kill_upstream"] = eng.truth(kw.get("upstream", z3.BoolVal(False)))
+    return k(PNONE, St(st.env, st.heap, st.pc, g))
+
+
+def _cleanup_hook(eng, args, kw, st, fr, k, node):
+    g = dict(st.ghost)
+    g["cleaned_last"] = eng.to_v(st.env["m"])
+    return k(PNONE, St(st.env, st.heap, st.pc, g))
+
+
+def _tmi_exc(S, a, exc):
+    g = a.ghost
+    out = []
+    if exc.origin == "stmt" and exc.cls != "TypeError":
+        out.append(("before the exception is re-raised every mailbox was killed and cleaned up (the loops ran)",
+                    S.And(g.kill_loop_done, g.cleanup_loop_done)))
+    return out
+
+
+tmp_iter = REG.add(Contract(
+    F, "ThreadedMailboxProcessor.iter",
+    params=dict(self="V"),
+    ensures=lambda S, a, r: [("on normal completion every mailbox was cleaned up (threads joined) and no saver holds an unreported failure",
+                              a.ghost.cleanup_loop_done)],
+    raises={"Any": lambda S, a: S.true, "GeneratorExit": lambda S, a: S.true, "MailboxKilled": lambda S, a: S.true,
+            "TypeError": lambda S, a: S.true},
+    exc_ensures=_tmi_exc,
+    ghost={"killed_last": z3.Const("nobody_killed", V), "kill_reason_ok": z3.BoolVal(False), "kill_upstream": z3.BoolVal(False),
+           "cleaned_last": z3.Const("nobody_cleaned", V), "kill_loop_done": z3.BoolVal(False), "cleanup_loop_done": z3.BoolVal(False)},
+    calls={"m.kill": _kill_hook, "m.cleanup": _cleanup_hook, "m.start": Abstract(sort=None), "self.log.debug": Abstract(sort=None),
+           "self.log.fatal": Abstract(sort=None), "print": Abstract(sort=None), "sys.exc_info": Abstract(),
+           ".subscribe": Abstract(), ".shutdown": Abstract(sort=None)},
+    store_hooks={"reason": lambda eng, st, key, v, node: ("raise", Exc("TypeError", origin="stmt"), st)},   # reason is a tuple
+    loops={1: Loop(lambda S, a: []),
+           2: Loop(lambda S, a: [], body_ensures=lambda S, a: [
+               ("EVERY mailbox is killed, upstream, with the reason of the failure (the code's exemption 'm != target' compares a mailbox "
+                "with the target's NAME and never applies)",
+                S.Or(S.eq(S.v(a.m), S.v(a.target)), S.And(S.eq(a.ghost.killed_last, a.m), a.ghost.kill_upstream, a.ghost.kill_reason_ok)))],
+                   on_exit=lambda eng, st: St(st.env, st.heap, st.pc, {**st.ghost, "kill_loop_done": z3.BoolVal(True)})),
+           3: Loop(lambda S, a: [], body_ensures=lambda S, a: [("EVERY mailbox is cleaned up (its threads joined)", S.eq(a.ghost.cleaned_last, a.m))],
+                   on_exit=lambda eng, st: St(st.env, st.heap, st.pc, {**st.ghost, "cleanup_loop_done": z3.BoolVal(True)})),
+           4: Loop(lambda S, a: []), 5: Loop(lambda S, a: [])},
+    loop_ghost={1: [], 2: ["killed_last", "kill_reason_ok", "kill_upstream"], 3: ["cleaned_last"], 4: [], 5: []},
+))
+tmp_iter.yield_from_raises = ("Any", "GeneratorExit", "MailboxKilled")
+tmp_iter.generator = True
+
+
+def _kill_spies(eng, args, kw, st, fr, k, node):
+    g = dict(st.ghost)
+    g["spies_killed"] = z3.BoolVal(True)
+    g["killed_while_handling"] = z3.BoolVal(st.ghost.get("#handling") is not None)
+    return k(PNONE, St(st.env, st.heap, st.pc, g))
+
+
+stp_iter = REG.add(Contract(
+    "strax/processors/single_thread.py", "SingleThreadProcessor.iter",
+    params=dict(self="V"),
+    ensures=lambda S, a, r: [("normal completion, or the consumer closed the iterator and the savers were closed with an exception on record",
+                              S.Or(S.Not(a.ghost.spies_killed), a.ghost.killed_while_handling))],
+    raises={"Any": lambda S, a: S.true},
+    exc_ensures=lambda S, a, exc: [("a failure in a producer closes every saver (while the exception is being handled, so that it is recorded) "
+                                    "before it is re-raised to the caller", S.And(a.ghost.spies_killed, a.ghost.killed_while_handling))],
+    ghost={"spies_killed": z3.BoolVal(False), "killed_while_handling": z3.BoolVal(False)},
+    calls={"self.post_office.kill_spies": _kill_spies, "self.post_office.get_iter": Abstract(), "self.log.debug": Abstract(sort=None),
+           "self.log.fatal": Abstract(sort=None)},
+))
+stp_iter.yield_from_raises = ("Any", "GeneratorExit")
+stp_iter.generator = True
